@@ -67,6 +67,17 @@ CLAIMS['C12'] = dict(
     note='Trusted: clang 14 front end/CFG; the protocol table in rules/c12.py transcribed from the manual\'s description of IF/SWITCH constructs.',
     ref='5 (C12), 4 (A12, A3)')
 
+CLAIMS['C02'] = dict(
+    technique='who-may-write shape rules over the phase-partitioned call graph, must-pass/guarded-by queries, type-width facts, exit-code table agreement with the manual',
+    text=('Decides: only the diagnostic emitter increments the error/warning counters, once per diagnostic, selected by '
+          'the warning flag that -Werror can only turn into error; counters are zeroed only at pass start and are at '
+          'least as wide as the -maxerrors limit; removal of the code file, the global error flag and the exit status '
+          'hang off the single predicate ErrorCount != 0; exit codes are the documented ones and exit(3) is preceded by '
+          'the clean-up that removes the outputs; ERROR/WARNING/FATAL route through the emitter. Message text and -E '
+          'routing are not decided.'),
+    note='Trusted: clang 14 front end/CFG; return-code list of doc/assembler-usage.md; three listed exceptions (-Y JmpErrors, two internal-consistency exits).',
+    ref='5 (C02), 4 (A4, A3)')
+
 NA_REASONS = {}
 
 
